@@ -1374,52 +1374,88 @@ def ref_samenode(ctx: Ctx) -> RuleResult:
 
 
 def ref_nonekey(ctx: Ctx) -> RuleResult:
-    """A deactivated node's value is None; a reference with a key path (index / unpack) to it yields None as well.
+    """What a deactivated node leaves in the results and how UsageExecNode.result reads it must agree.
 
-    UsageExecNode.result folds the key path over the stored value: when the stored value is the None the scheduler writes for a
-    deactivated node, the fold must not be attempted (None has no __getitem__)."""
+    A reference with a key path (index / unpack) to a node that did not run yields None; the same key path on a node that really
+    returned None is the user's error and raises, as in plain Python. Two consistent designs: the scheduler stores *nothing* for a
+    deactivated node (an absent id reads as None whatever the key path) - or it stores a marker the accessor tests. The two
+    inconsistent ones are reported: a stored None folded over the key path (AttributeError from the scheduler / a worker / the return
+    values), and a stored None told apart by `is None` (a real None result is then silently read as None too)."""
     from .sch import model
 
     r = RuleResult("REF-NONEKEY")
     m = model(ctx)
-    # the scheduler stores the constant None for a deactivated node
-    stores_none = False
+    stored_values: Set[str] = set()
+    deact_paths = 0
     for p in m.paths():
         if not p.feasible:
             continue
         if any(e.kind == "BRANCH" and frozenset([("ACTIVE", False)]) in e.data["clauses"] for e in p.events):
+            deact_paths += 1
             for e in p.events:
-                if e.kind == "ITEM_WRITE" and e.data.get("selected") and e.data.get("value") == "None":
-                    stores_none = True
-    r.ob(True, {"scheduler stores None for a deactivated node": stores_none})
-    if not stores_none:
-        raise Undecided("the value the scheduler stores for a deactivated node is not the constant None (form not modelled)")
+                if e.kind == "ITEM_WRITE" and e.data.get("selected"):
+                    stored_values.add(e.data.get("value"))
+    r.require(deact_paths >= 1, "scheduler: no path through the deactivated arm found")
+    if len(stored_values) > 1 or (stored_values and stored_values != {"None"}):
+        raise Undecided(f"the scheduler stores {sorted(stored_values)} for a deactivated node (marker forms are not modelled)")
+    stores_none = stored_values == {"None"}
+    r.ob(True, {"scheduler stores for a deactivated node": "None" if stores_none else "nothing (the id stays absent)"})
     f = ctx.method("UsageExecNode", "result")
     folds = [n for n in iter_own_nodes(f.node) if (isinstance(n, ast.Call) and dotted(n.func) in ("reduce", "functools.reduce"))
              or (isinstance(n, ast.For) and norm_src(n.iter) == "self.key")]
     r.require(len(folds) >= 1, "UsageExecNode.result: key-path fold not found")
     chains = _if_chains(f.node)
+    stored = {n_.targets[0].id for n_ in iter_own_nodes(f.node) if isinstance(n_, ast.Assign) and isinstance(n_.targets[0], ast.Name)
+              and ((isinstance(n_.value, ast.Subscript) and norm_src(n_.value.value).endswith("results"))
+                   or (isinstance(n_.value, ast.Call) and isinstance(n_.value.func, ast.Attribute) and n_.value.func.attr == "get"
+                       and norm_src(n_.value.func.value).endswith("results")))}
+
+    def none_test_of_stored(t: ast.AST) -> bool:
+        for c_ in ast.walk(t):
+            if isinstance(c_, ast.Compare) and len(c_.ops) == 1 and isinstance(c_.ops[0], (ast.Is, ast.IsNot, ast.Eq, ast.NotEq)) \
+                    and isinstance(c_.comparators[0], ast.Constant) and c_.comparators[0].value is None:
+                l_ = c_.left
+                if (isinstance(l_, ast.Name) and l_.id in stored) or (isinstance(l_, ast.Subscript) and norm_src(l_.value).endswith("results")):
+                    return True
+        return False
+
     for fd in folds:
         st = _innermost_stmt(f.node, fd) if not isinstance(fd, ast.stmt) else fd
-        tests = [norm_src(t) for t, v in chains.get(id(st), ())]
-        guarded = any(" is None" in t or " is not None" in t for t in tests)
-        # or an early exit: `if <stored value> is None [and <key path>]: return None` before the fold
-        stored = {n_.targets[0].id for n_ in iter_own_nodes(f.node) if isinstance(n_, ast.Assign) and isinstance(n_.targets[0], ast.Name)
-                  and isinstance(n_.value, ast.Subscript) and norm_src(n_.value.value).endswith("results")}
+        tests = [norm_src(t) for t, v in chains.get(id(st), ()) if none_test_of_stored(t)]
+        # or an early exit before the fold: `if <stored value> is None [and <key path>]: return <constant>`
         for g_ in iter_own_nodes(f.node):
-            if isinstance(g_, ast.If) and g_.lineno < fd.lineno and g_.body and isinstance(g_.body[-1], ast.Return):
-                for c_ in ast.walk(g_.test):
-                    if isinstance(c_, ast.Compare) and len(c_.ops) == 1 and isinstance(c_.ops[0], ast.Is) and isinstance(c_.left, ast.Name) \
-                            and c_.left.id in stored and isinstance(c_.comparators[0], ast.Constant) and c_.comparators[0].value is None:
-                        guarded = True
-                        tests = tests + [norm_src(g_.test) + " -> return"]
-        r.ob(guarded, {"key-path fold": norm_src(fd)[:90], "under": tests})
-        if not guarded:
+            if isinstance(g_, ast.If) and g_.lineno < fd.lineno and g_.body and isinstance(g_.body[-1], ast.Return) and none_test_of_stored(g_.test):
+                tests = tests + [norm_src(g_.test) + " -> return"]
+        by_none = bool(tests)
+        # an absent id (deactivated, or not selected) must read as None BEFORE the fold: `results.get(id)` folded over the key path does not
+        src = fd.args[2] if isinstance(fd, ast.Call) and len(fd.args) == 3 else None
+        if isinstance(src, ast.Name):
+            ds = [n_ for n_ in iter_own_nodes(f.node) if isinstance(n_, ast.Assign) and isinstance(n_.targets[0], ast.Name) and n_.targets[0].id == src.id]
+            src = ds[0].value if len(ds) == 1 else src
+        absent_as_none = isinstance(src, ast.Call) and isinstance(src.func, ast.Attribute) and src.func.attr == "get" \
+            and norm_src(src.func.value).endswith("results") and len(src.args) == 1
+        member = any(isinstance(c_, ast.Compare) and len(c_.ops) == 1 and isinstance(c_.ops[0], (ast.In, ast.NotIn)) and norm_src(c_.comparators[0]).endswith("results")
+                     for g_ in iter_own_nodes(f.node) if isinstance(g_, ast.If) for c_ in ast.walk(g_.test))
+        if absent_as_none and not member and not by_none:
+            r.ob(False, {"key-path fold over": norm_src(src), "membership test before it": False})
+            r.violate("UsageExecNode.result: the key path is applied to the None of an absent id", f.loc(fd),
+                      "a node that did not run (deactivated, or left out of the selection) has no entry in the results: an indexed / "
+                      "unpacked part of it must read as None, not raise AttributeError: 'NoneType' object has no attribute '__getitem__' "
+                      "from the scheduler, a worker or the return values", norm_src(fd)[:120])
+            continue
+        ok = not by_none and not stores_none
+        r.ob(ok, {"key-path fold": norm_src(fd)[:90], "bypassed when the stored value is None": tests})
+        if stores_none and not by_none:
             r.violate("UsageExecNode.result: the key path is applied to the None stored for a deactivated node", f.loc(fd),
                       "a node (or a nested DAG's output) that is an indexed / unpacked part of a deactivated node does not yield None: "
                       "the call fails with AttributeError: 'NoneType' object has no attribute '__getitem__' - in the return value, in a "
                       "dependent's arguments (worker thread) or in the activation test (scheduler loop); an id that is absent from the "
                       "results, by contrast, yields None whatever the key path", norm_src(fd)[:120])
+        elif by_none:
+            r.violate("UsageExecNode.result: a stored None is read as 'did not run'", f.loc(fd),
+                      "the accessor skips the key path when the stored value is None: a node (or DAG argument) that really returned None "
+                      "and is indexed / unpacked hands None to its dependents instead of raising like the plain function does - a "
+                      "deactivated node cannot be told from one that returned None by the value alone", tests)
     return r
 
 
@@ -1539,6 +1575,81 @@ def ref_funcopy(ctx: Ctx) -> RuleResult:
     return r
 
 
+def ref_setupout(ctx: Ctx) -> RuleResult:
+    """Every output of a deactivated nested DAG is None - also an output that is (part of) a setup node's result.
+
+    The splice exempts the setup nodes of the nested DAG from its activation flag (they run once, for all calls) and hands the
+    nested DAG's return references straight to the outer DAG: an output that refers to a setup node keeps its value when the
+    nested DAG is deactivated."""
+    from .val import reach_conditions
+
+    r = RuleResult("REF-SETUPOUT")
+    call = ctx.own_method("DAG", "__call__")
+    r.require(call is not None, "DAG.__call__ not found")
+    sites = [n for n in iter_own_nodes(call.node) if isinstance(n, ast.Assign) and isinstance(n.targets[0], ast.Subscript)
+             and const_str(n.targets[0].slice) == "active" and isinstance(n.value, ast.Call) and dotted(n.value.func) == "make_active"]
+    r.require(len(sites) >= 1, "attachment of the outer flag to inner nodes not found")
+    exempt = []
+    for st in sites:
+        conds = reach_conditions(call.node, st)
+        if conds is None:
+            raise Undecided("splice: conditions of the flag attachment not understood")
+        for c_, pol_ in conds:
+            for x in ast.walk(c_):
+                if isinstance(x, ast.Attribute) and x.attr == "setup" and is_xn(ctx, ctx.type_of(call, x.value)) and not pol_:
+                    exempt.append((st, c_))
+    r.ob(True, {"setup nodes exempt from the nested DAG's flag": bool(exempt)})
+    if not exempt:
+        return r
+    # are the outputs routed through something that carries the flag? (a node created per output under the flag)
+    rets = [n for n in iter_own_nodes(call.node) if isinstance(n, ast.Return) and n.value is not None
+            and any(isinstance(x, ast.Attribute) and x.attr == "return_uxns" for x in ast.walk(n.value))]
+    derived = set()
+    for n in iter_own_nodes(call.node):
+        if isinstance(n, ast.Return) and n.value is not None:
+            for x in ast.walk(n.value):
+                if isinstance(x, ast.Name):
+                    derived.add(x.id)
+    direct = bool(rets)
+    for n in iter_own_nodes(call.node):
+        if isinstance(n, ast.Return) and n.value is not None and any(isinstance(x, ast.Call) and (dotted(x.func) or "") in ("stub", "LazyExecNode")
+                                                                      for x in ast.walk(n.value)):
+            direct = False
+    r.ob(not direct, {"outputs are the nested DAG's own references (prefixed)": direct})
+    if direct:
+        st, c_ = exempt[0]
+        r.violate("splice: an output of the nested DAG that refers to a setup node is exempt from the DAG's activation flag", call.loc(st),
+                  "name, pred = scoring(x, twz_active=False) with name = load_model()['name'] (a setup node) yields ('model-v1', None): "
+                  "the dependent of `name` computes with the value although the nested DAG is deactivated", norm_src(c_))
+    return r
+
+
+def ref_funtransient(ctx: Ctx) -> RuleResult:
+    """The callable of a node is not copied at all - not even into a value that is discarded.
+
+    REF-FUNCOPY makes sure the node that is built runs the original callable. The copy itself still happens when the whole node goes
+    through dataclasses.asdict / deepcopy first: a callable that holds state which cannot be copied (a lock, a database connection,
+    an open file) makes the describing function fail with TypeError, and a large bound object is cloned once per call site."""
+    r = RuleResult("REF-FUNTRANSIENT")
+    sites = []
+    for f in pkg_funcs(ctx):
+        for n in iter_own_nodes(f.node):
+            if isinstance(n, ast.Call) and len(n.args) == 1 and (dotted(n.func) or "").split(".")[-1] in ("asdict", "deepcopy") \
+                    and is_xn(ctx, ctx.type_of(f, n.args[0])):
+                sites.append((f, n))
+    for f, n in sites:
+        r.ob(False, {"in": f.short, "whole node copied by": norm_src(n)})
+    if sites:
+        f, n = sites[0]
+        r.violate("ExecNode rebuilt through dataclasses.asdict / deepcopy: the callable is deep-copied before it is replaced", f.loc(n),
+                  "xn(obj.method) with an obj that owns a threading.Lock, or xn(functools.partial(query, sqlite_connection)), cannot be "
+                  "called in a describing function: TypeError: cannot pickle ... (the copy is discarded afterwards, REF-FUNCOPY)",
+                  sorted({f"{g.short}: {norm_src(c)}" for g, c in sites}))
+    else:
+        r.ob(True, {"whole-node copies": 0})
+    return r
+
+
 def ref_resulttry(ctx: Ctx) -> RuleResult:
     """UsageExecNode.result applies the key path the user wrote without catching what that indexing raises.
 
@@ -1650,7 +1761,54 @@ def ref_unwrap(ctx: Ctx) -> RuleResult:
     return r
 
 
+def ref_kwname(ctx: Ctx) -> RuleResult:
+    """The name of a keyword argument is the user's parameter name from trace to call: wherever a node's `kwargs` mapping is
+    rebuilt or turned into the call's keywords (iteration over `<node>.kwargs.items()`), the key is carried over unchanged."""
+    r = RuleResult("REF-KWNAME")
+    sites = 0
+    for f in pkg_funcs(ctx):
+        for n in iter_own_nodes(f.node):
+            gens = []
+            if isinstance(n, ast.DictComp):
+                gens = [(g.target, g.iter, n.key, n) for g in n.generators[:1]]
+            elif isinstance(n, ast.For):
+                # for k, v in X.kwargs.items(): D[<key>] = ...
+                for b in own_walk(n):
+                    if isinstance(b, ast.Assign) and len(b.targets) == 1 and isinstance(b.targets[0], ast.Subscript):
+                        gens.append((n.target, n.iter, b.targets[0].slice, b))
+            for tgt, it, key, where in gens:
+                if not (isinstance(it, ast.Call) and isinstance(it.func, ast.Attribute) and it.func.attr == "items" and not it.args
+                        and isinstance(it.func.value, ast.Attribute) and it.func.value.attr == "kwargs"):
+                    continue
+                bt = ctx.type_of(f, it.func.value.value)
+                if not (bt[0] == "cls" and bt[1] in ctx.P.classes and ctx.T.is_instance(bt, xn_q(ctx))):
+                    continue
+                if not (isinstance(tgt, ast.Tuple) and len(tgt.elts) == 2 and isinstance(tgt.elts[0], ast.Name)):
+                    continue
+                kname = tgt.elts[0].id
+                if isinstance(where, ast.Assign):
+                    # only stores whose value mentions the iteration variables belong to the rebuild
+                    if not ({x.id for x in ast.walk(where.value) if isinstance(x, ast.Name)} & {e.id for e in tgt.elts if isinstance(e, ast.Name)}):
+                        continue
+                    # a store into something that is not keyed by names (results by id, ...) is not a keyword mapping
+                    if kname not in {x.id for x in ast.walk(key) if isinstance(x, ast.Name)}:
+                        continue
+                sites += 1
+                ok = isinstance(key, ast.Name) and key.id == kname
+                r.ob(ok, {"in": f.short, "keyword mapping rebuilt from": norm_src(it.func.value), "key": norm_src(key)})
+                if not ok:
+                    r.violate(f"{f.short}: the name of a keyword argument is rewritten ({norm_src(key)})", f.loc(where),
+                              "the key of a node's kwargs is the parameter name the user wrote; prefixing it (sub-DAG) or cutting it at a "
+                              "dot (execute) changes the keyword the function is called with: report(**{'train.loss': a, 'val.loss': b}) "
+                              "is entered with loss=b only", norm_src(key))
+    r.require(sites >= 2, f"sites that rebuild a node's keyword mapping: {sites} found, at least 2 expected (the splice and the call)")
+    return r
+
+
 RULES = {
+    "REF-KWNAME": ref_kwname,
+    "REF-SETUPOUT": ref_setupout,
+    "REF-FUNTRANSIENT": ref_funtransient,
     "REF-UNWRAP": ref_unwrap,
     "REF-STUBEXEC": ref_stubexec,
     "REF-RESULTTRY": ref_resulttry,
